@@ -162,7 +162,7 @@ func checkBinary(p []byte, p2 []byte) string {
 	if o, ok := out.([]byte); !(ok && bytes.Equal(o, p)) && !(len(p) == 0 && out == nil) {
 		return fmt.Sprintf("top level: %d octets in, got %T (%d)", len(p), out, len(fmt.Sprint(out)))
 	}
-	c := &zoo.BinCarrier{B: p, L: [][]byte{{1}, p, {}, p2, p}, MV: map[string][]byte{"k": p, "": p2}, A: []interface{}{p, []byte{}, p2}}
+	c := &zoo.BinCarrier{B: p, L: [][]byte{{1}, p, {}, p2, p}, MV: map[string][]byte{"k": p, "": p2}, A: []interface{}{p, []byte{}, p2, &zoo.K00{A: 1}, &zoo.K01{A: "x"}, &zoo.K02{A: 2}, p, p2}}
 	stage, rerr, cb := roundTrip(c)
 	if rerr != nil {
 		return fmt.Sprintf("in containers: %s: %v", stage, rerr)
